@@ -491,7 +491,15 @@ def gen_dispatch_cases(rng, reps):
     return cases
 
 
-CORPUS = [
+# blocked mean filters whose component volumes differ, (1, 4) and (1/2, 3), in all four modes and through both
+# constructors: a filter that scales every component with the volume of component 0 fails on each of them
+VOLUME_CORPUS = [
+    "vec %s MB2 MB 2 %d 2 %s %s B 2 2 5/1 6/1 -1/1 2/1" % (mode, ct, weights, solvol)
+    for mode in ("rhs", "sol", "def", "cor") for ct in (0, 1)
+    for weights, solvol in (("1/1 2/1 0/1 0/1 1/1 2/1 3/1 5/1", "2/1 -1/1 1/1 4/1"),
+                            ("1/2 1/1 0/1 1/1 1/1 1/1 1/1 2/1", "3/1 1/2 1/2 3/1"))]
+
+CORPUS = VOLUME_CORPUS + [
     # the excluded point of filter_mat: constrained rows without a stored diagonal entry become zero rows
     "mat mat U U 0 3 2 0 5/1 2 6/1 3 3 4 0 2 3 4 4 0 2 0 2 4 1/1 2/1 3/1 4/1",
     # rectangular matrix, constrained row index beyond the number of columns
@@ -1205,7 +1213,11 @@ def leaf_class(m):
         return keys
     if k in ("M", "MB"):
         ct = m[1] if k == "M" else m[2]
-        return ["%s-ctor:%d" % (k, ct)] + ([] if consistent_mean(m) else ["%s-volume-inconsistent" % k])
+        keys = ["%s-ctor:%d" % (k, ct)] + ([] if consistent_mean(m) else ["%s-volume-inconsistent" % k])
+        if k == "MB" and ct != 2 and m[3] > 0 and NAN not in m[7] and all(abs(x) > EPS for x in m[7]) \
+                and len(set(m[7])) > 1:
+            keys.append("MB-component-volumes-differ")
+        return keys
     return []
 
 
